@@ -1799,6 +1799,11 @@ def rule_call_forwards(ctx: Ctx, rid="C09.CALL-FORWARDS", publish=False, no_try=
     m, c = _evaluator(ctx)
     call = m.get_method(c, "__call__")
     a = call.args
+    from . import liferules as LF
+    if LF.decide_call(ctx, rid, aspects, no_try=no_try):
+        if publish:
+            _publish_rule(ctx, m, c)
+        return
     sig_ok = len(a.args) == 1 and a.kwarg is not None and not a.vararg and not a.kwonlyargs and not a.defaults
     ctx.rep.check(sig_ok, rid, f"{EV}:ExperimentEvaluator.__call__[signature]",
                   "takes only **kwargs" if sig_ok else f"signature is ({norm(a)})", site=m.site(call), text=norm(a))
@@ -1864,6 +1869,28 @@ def rule_call_forwards(ctx: Ctx, rid="C09.CALL-FORWARDS", publish=False, no_try=
                       text=norm(tries[0].handlers[0])[:120] if tries else "")
     if not publish:
         return
+    _publish_rule(ctx, m, c)
+
+
+def _publish_rule(ctx: Ctx, m, c):
+    rec = m.get_method(c, "recompile")
+    written, inplace = set(), set()
+    for p_ in flow.enumerate_paths(rec, resolver=resolver_for(m, c)):
+        for st in p_.stmts():
+            if isinstance(st, ast.stmt):
+                for k, at, rhs in _is_state_write(st, "self", set(), set()):
+                    if k in ("instance-container", "instance-nested"):
+                        base = at.split("[")[0].split(".")
+                        at = base[1] if len(base) > 1 else base[0]
+                        inplace.add(at)
+                    written.add(at)
+    # writes made by helpers outside the class (decorators, module functions taking the evaluator) count as well
+    for f_ in m.functions().values():
+        for x in ast.walk(f_):
+            if isinstance(x, (ast.Assign, ast.AugAssign)):
+                for t in (x.targets if isinstance(x, ast.Assign) else [x.target]):
+                    if isinstance(t, ast.Attribute) and dotted(t.value) == "self":
+                        written.add(t.attr)
     # single published attribute read on the call path
     reads = set()
     todo, seen = ["__call__"], set()
